@@ -57,6 +57,7 @@ type KnownFinding struct {
 	SiteContains string `json:"site_contains,omitempty"`
 	MsgContains  string `json:"msg_contains,omitempty"`
 	InputRegex   string `json:"input_regex,omitempty"` // matched against the rendered model (JSON)
+	NoteContains string `json:"note_contains,omitempty"` // matched against the harness notes attached to the violation
 	What         string `json:"what"`
 }
 
@@ -445,6 +446,17 @@ func matchKnown(known []KnownFinding, prop string, v sym.Violation) *KnownFindin
 		}
 		if k.MsgContains != "" && !strings.Contains(v.Msg, k.MsgContains) {
 			continue
+		}
+		if k.NoteContains != "" {
+			found := false
+			for _, nv := range v.Notes {
+				if strings.Contains(nv, k.NoteContains) {
+					found = true
+				}
+			}
+			if !found {
+				continue
+			}
 		}
 		if k.InputRegex != "" {
 			re, err := regexp.Compile(k.InputRegex)
